@@ -92,7 +92,7 @@ def build_precond(model, cfg):
     return KFACPreconditioner(model, **kw)
 
 
-def rank_body(cfg, history, W, observe=None, single_union=False, pre_step=None):
+def rank_body(cfg, history, W, observe=None, single_union=False, pre_step=None, setup=None):
     """Returns the function executed by every rank.  With single_union=True (W must
     be 1) every pass is fed the concatenation of the batches of `cfg['union_of']` ranks."""
     dist = torch.distributed
@@ -107,6 +107,8 @@ def rank_body(cfg, history, W, observe=None, single_union=False, pre_step=None):
             sched = LambdaParamScheduler(p, **{k + '_lambda': resolve_callable(v) for k, v in cfg['sched'].items()})
         obs = []
         scale = cfg.get('grad_scale') or 1.0
+        if setup is not None:
+            setup(rank, model, p)
 
         def one_pass(ev, micro):
             if single_union:
@@ -180,9 +182,9 @@ def rank_body(cfg, history, W, observe=None, single_union=False, pre_step=None):
     return body
 
 
-def run(cfg, history, W, seed=0, policy='random', observe=None, pre_step=None):
+def run(cfg, history, W, seed=0, policy='random', observe=None, pre_step=None, setup=None):
     from harness import simdist
-    return simdist.run_world(W, rank_body(cfg, history, W, observe, pre_step=pre_step), seed=seed, policy=policy)
+    return simdist.run_world(W, rank_body(cfg, history, W, observe, pre_step=pre_step, setup=setup), seed=seed, policy=policy)
 
 
 def run_single(cfg, history, observe=None, union_of=None, pre_step=None):
